@@ -261,6 +261,7 @@ def build():
     fam.replay['ChangeField.simulate'] = replay_change_field_simulate
     fam.replay['AddField.simulate'] = replay_add_field_simulate
     fam.replay['DeleteField.simulate'] = replay_delete_field_simulate
+    fam.replay['Evolver.diff_evolutions'] = replay_diff_evolutions
     fam.syntactic.append(Syntactic('run_mutation_swallows_only_cannot_simulate', ['C12'], syn_run_mutation,
                                    'AppMutator.run_mutation/run_mutations and BaseMutation.run_simulation contain no except clause '
                                    'other than "except CannotSimulate" (SimulationFailure propagates to the command)'))
@@ -322,8 +323,27 @@ def add_small(w):
     DIFF = 'django_evolution/diff.py'
     PH = 'django_evolution/placeholders.py'
     w.cls('TaskS', {'can_simulate': K.Bool, 'evolution_required': K.Bool})
-    w.cls('Evolver', {'_tasks_by_id': K.Map(K.Str, K.Ref('TaskS'))}, module=EVOLVER,
+    w.cls('Evolver', {'_tasks_by_id': K.Map(K.Str, K.Ref('TaskS')), 'project_sig': K.Ref('ProjectSignature'),
+                      'target_project_sig': K.Ref('ProjectSignature')}, module=EVOLVER,
           views={'tasks': ('_tasks_by_id', 'values')})
+    w.classes['Diff']['fields'].update({'original_project_sig': K.Ref('ProjectSignature'),
+                                        'target_project_sig': K.Ref('ProjectSignature')})
+    w.stub('Diff.__init__', params={'self': K.Ref('Diff'), 'original': K.Ref('ProjectSignature'),
+                                    'target': K.Ref('ProjectSignature')},
+           modifies=['Diff.original_project_sig[self]', 'Diff.target_project_sig[self]', 'Diff.changed[self]', 'Diff.deleted[self]'],
+           ensures=['self.original_project_sig is original', 'self.target_project_sig is target'],
+           note='Diff(original, target): what has to change to get from `original` to `target`; models present only in '
+                '`original` are reported as deleted, models present only in `target` are not walked')
+    w.stub('Evolver._prepare_tasks', params={'self': K.Ref('Evolver')}, modifies=[],
+           note='runs the queued tasks\' prepare() (simulation into self.project_sig); idempotent')
+    w.contract(
+        'Evolver.diff_evolutions', module=EVOLVER, serves=['C12'],
+        params={'self': K.Ref('Evolver')}, returns=K.Ref('Diff'),
+        modifies=['Diff.original_project_sig', 'Diff.target_project_sig', 'Diff.changed', 'Diff.deleted'],
+        ensures=[
+            # the residual difference is taken FROM the simulated signature TO the signature of the current models
+            'result.original_project_sig is self.project_sig', 'result.target_project_sig is self.target_project_sig',
+            'fresh_ref(result)'])
     w.contract(
         'Evolver.can_simulate', module=EVOLVER, serves=['C12'],
         params={'self': K.Ref('Evolver')}, returns=K.Bool,
@@ -429,6 +449,26 @@ def replay_change_field_simulate(label, inputs):
             results.append({'field_type': getattr(new_type, '__name__', None), 'accepted': False})
     bad = [r for r in results if r['accepted']]
     return {'reproduced': bool(bad), 'clause': 'null=False without initial must be rejected', 'runs': results}
+
+
+def replay_diff_evolutions(label, inputs):
+    """The real diff_evolutions() on an Evolver whose simulated signature still holds a model the current models no
+    longer have: the residual difference must name that model."""
+    from django_evolution.evolve import Evolver
+    from django_evolution.signature import ProjectSignature, AppSignature, ModelSignature
+    simulated, target = ProjectSignature(), ProjectSignature()
+    for sig, names in ((simulated, ['Book', 'Author']), (target, ['Book'])):
+        app = AppSignature('tests')
+        for n in names:
+            app.add_model_sig(ModelSignature(n, 'tests_' + n.lower()))
+        sig.add_app_sig(app)
+    ev = Evolver.__new__(Evolver)
+    ev.project_sig, ev.target_project_sig = simulated, target
+    ev._prepare_tasks = lambda: None
+    diff = ev.diff_evolutions()
+    named = 'Author' in str(diff)
+    return {'reproduced': diff.is_empty(ignore_apps=True) or not named, 'diff': str(diff),
+            'inputs': {'simulated models': ['Book', 'Author'], 'current models': ['Book']}}
 
 
 def replay_delete_field_simulate(label, inputs):
